@@ -200,9 +200,21 @@ type prepared struct {
 	full         *Script
 	instantiated bool
 	cases        []*Script // ground query under each declared case (discharged only if the plain query is undecided)
+	parts        []*prepared // the goal split into conjuncts (discharged only if the whole goal is undecided)
 }
 
 func (tr *Tr) prepare(o *Obligation, opt solveOpts, extra []*Term) *prepared {
+	p := tr.prepare1(o, opt, extra)
+	if parts := tr.f.splitConj(o.Cond); len(parts) > 1 && len(parts) <= 24 {
+		for i, c := range parts {
+			o2 := &Obligation{Name: fmt.Sprintf("%s.part%d", o.Name, i), Kind: o.Kind, Reach: o.Reach, Cond: c, NAssume: o.NAssume}
+			p.parts = append(p.parts, tr.prepare1(o2, opt, extra))
+		}
+	}
+	return p
+}
+
+func (tr *Tr) prepare1(o *Obligation, opt solveOpts, extra []*Term) *prepared {
 	asserts := tr.sliceAssumptions(o, extra)
 	g, inst, _ := tr.f.groundQuery(asserts)
 	p := &prepared{instantiated: inst}
@@ -277,111 +289,202 @@ func raceSolvers(sc *Script, first, timeoutMs int) (solveOut, []solveOut) {
 	return r, tried
 }
 
-// discharge one obligation: ground query first (z3-new alone, then a race of all solvers); if that yields only a
-// candidate model, the full quantified query is raced as well.
+// discharge one obligation in stages, cheapest first:
+//   A  ground query, z3-new alone, short timeout
+//   C  the goal split into conjuncts, each through A and B
+//   B  the declared case split (each case: z3-new short, then a race of all solvers)
+//   D  ground query, race of all solvers, full timeout
+//   E  the full quantified query, race of all solvers
+// `unsat` at any stage is a proof; `sat` is definitive only when nothing was instantiated.
 func discharge(o *Obligation, p *prepared, opt solveOpts) {
 	start := time.Now()
 	defer func() { o.Time = time.Since(start).Seconds() }()
-	first := opt.first
-	if first <= 0 {
-		first = 2000
-	}
-	if first > opt.timeoutMs {
-		first = opt.timeoutMs
-	}
-	var r solveOut
-	var tried []solveOut
-	if len(p.cases) == 0 {
-		r, tried = raceSolvers(p.ground, first, opt.timeoutMs)
-	} else {
-		// cheap attempt on the unsplit query; the case split handles what it cannot
-		r, tried = raceSolvers(p.ground, 1000, 1000)
-	}
-	modelScript := p.ground
-	if r.res != "unsat" && r.res != "sat" && len(p.cases) > 0 {
-		// case by case, in parallel
-		type caseRes struct {
-			i     int
-			r     solveOut
-			tried []solveOut
-		}
-		ch := make(chan caseRes, len(p.cases))
-		for i, cs := range p.cases {
-			go func(i int, cs *Script) {
-				rc, tc := raceSolvers(cs, first, opt.timeoutMs)
-				ch <- caseRes{i, rc, tc}
-			}(i, cs)
-		}
-		all := true
-		var worst *caseRes
-		for range p.cases {
-			cr := <-ch
-			if cr.r.res != "unsat" {
-				all = false
-				if worst == nil || (cr.r.res == "sat" && worst.r.res != "sat") {
-					c := cr
-					worst = &c
-				}
-			}
-		}
-		if all {
-			r = solveOut{res: "unsat", solver: fmt.Sprintf("z3-5.1.0 (case split into %d)", len(p.cases))}
-			tried = append(tried, r)
-		} else {
-			for j := range worst.tried {
-				worst.tried[j].solver += fmt.Sprintf(" (case %d/%d)", worst.i+1, len(p.cases))
-			}
-			tried = append(tried, worst.tried...)
-			r = worst.r
-			r.solver += fmt.Sprintf(" (case %d/%d)", worst.i+1, len(p.cases))
-			if r.res == "sat" {
-				modelScript = p.cases[worst.i]
-			}
-		}
-	}
-	if p.instantiated && r.res != "unsat" {
-		r2, tried2 := raceSolvers(p.full, first, opt.timeoutMs)
-		for i := range tried2 {
-			tried2[i].solver += " (quantified)"
-		}
-		tried = append(tried, tried2...)
-		if r2.res == "unsat" {
-			r = r2
-		} else if r.res == "sat" {
-			o.Candidate = true
-		}
-	}
+	var log []solveOut
+	res := dischargeStages(p, opt, &log, true)
 	var sb strings.Builder
-	for _, t := range tried {
-		fmt.Fprintf(&sb, "[%s %.2fs] %s\n", t.solver, t.secs, strings.TrimSpace(firstLines(t.out, 3)))
+	for _, t := range log {
+		fmt.Fprintf(&sb, "[%s %.2fs] %s\n", t.solver, t.secs, strings.TrimSpace(firstLines(t.out, 2)))
 	}
 	o.Output = sb.String()
-	if r.res == "unsat" || r.res == "sat" {
-		o.Result = r.res
-		o.Solver = r.solver
-		if p.instantiated && r.res == "unsat" && !strings.Contains(r.solver, "quantified") {
-			o.Solver += " (ground-instantiated)"
-		}
-	} else {
+	o.Result = res.res
+	o.Solver = res.solver
+	o.Candidate = res.candidate
+	if res.res != "unsat" && res.res != "sat" {
 		o.Result = "unknown"
-		for _, t := range tried {
+		for _, t := range log {
 			if t.res == "timeout" {
 				o.Result = "timeout"
 			}
 		}
-		for _, t := range tried {
-			if t.res == "error" {
-				o.Output += "ERROR OUTPUT: " + firstLines(t.out, 6) + "\n"
-			}
-		}
 	}
-	if o.Result == "sat" {
+	if o.Result == "sat" && res.model != nil {
 		for _, s := range solvers {
-			if strings.HasPrefix(o.Solver, s.Name) {
-				o.Model = getModel(s, modelScript.Text, modelScript.Vars, opt.timeoutMs, modelScript.Quant)
+			if strings.HasPrefix(res.solver, s.Name) {
+				o.Model = getModel(s, res.model.Text, res.model.Vars, opt.timeoutMs, res.model.Quant)
 			}
 		}
 	}
+}
+
+type stageRes struct {
+	res       string
+	solver    string
+	candidate bool
+	model     *Script
+}
+
+func quickMs(opt solveOpts) int {
+	q := opt.first
+	if q <= 0 {
+		q = 2000
+	}
+	if q > opt.timeoutMs {
+		q = opt.timeoutMs
+	}
+	return q
+}
+
+func runCases(p *prepared, opt solveOpts, log *[]solveOut) stageRes {
+	type caseRes struct {
+		i     int
+		r     solveOut
+		tried []solveOut
+	}
+	ch := make(chan caseRes, len(p.cases))
+	for i, cs := range p.cases {
+		go func(i int, cs *Script) {
+			rc, tc := raceSolvers(cs, quickMs(opt), opt.timeoutMs)
+			ch <- caseRes{i, rc, tc}
+		}(i, cs)
+	}
+	all := true
+	var worst *caseRes
+	for range p.cases {
+		cr := <-ch
+		if cr.r.res != "unsat" {
+			all = false
+			if worst == nil || (cr.r.res == "sat" && worst.r.res != "sat") {
+				c := cr
+				worst = &c
+			}
+		}
+	}
+	if all {
+		return stageRes{res: "unsat", solver: fmt.Sprintf("z3-5.1.0 (case split into %d)", len(p.cases))}
+	}
+	for j := range worst.tried {
+		worst.tried[j].solver += fmt.Sprintf(" (case %d/%d)", worst.i+1, len(p.cases))
+	}
+	*log = append(*log, worst.tried...)
+	out := stageRes{res: worst.r.res, solver: worst.r.solver + fmt.Sprintf(" (case %d/%d)", worst.i+1, len(p.cases))}
+	if worst.r.res == "sat" {
+		out.model = p.cases[worst.i]
+		out.candidate = p.instantiated
+	}
+	return out
+}
+
+func dischargeStages(p *prepared, opt solveOpts, log *[]solveOut, top bool) stageRes {
+	ctx := context.Background()
+	suffix := ""
+	if p.instantiated {
+		suffix = " (ground-instantiated)"
+	}
+	// A
+	a := runSolver(ctx, solvers[0], p.ground.Text, quickMs(opt)/2+500, p.ground.Quant, false)
+	*log = append(*log, a)
+	if a.res == "unsat" {
+		return stageRes{res: "unsat", solver: a.solver + suffix}
+	}
+	if a.res == "sat" && !p.instantiated {
+		return stageRes{res: "sat", solver: a.solver, model: p.ground}
+	}
+	var sat *stageRes
+	if a.res == "sat" {
+		sat = &stageRes{res: "sat", solver: a.solver, candidate: true, model: p.ground}
+	}
+	// C
+	if top && len(p.parts) > 1 {
+		ch := make(chan stageRes, len(p.parts))
+		logs := make([][]solveOut, len(p.parts))
+		for i, pp := range p.parts {
+			go func(i int, pp *prepared) { ch <- dischargeStages(pp, opt, &logs[i], false) }(i, pp)
+		}
+		all := true
+		for range p.parts {
+			r := <-ch
+			if r.res != "unsat" {
+				all = false
+				if r.res == "sat" && sat == nil {
+					rr := r
+					sat = &rr
+				}
+			}
+		}
+		if all {
+			return stageRes{res: "unsat", solver: fmt.Sprintf("z3-5.1.0 (goal split into %d conjuncts)", len(p.parts))}
+		}
+		for i := range logs {
+			for j := range logs[i] {
+				logs[i][j].solver += fmt.Sprintf(" (conjunct %d/%d)", i+1, len(p.parts))
+			}
+			*log = append(*log, logs[i]...)
+		}
+		// a definitive sat of one conjunct is a definitive sat of the goal
+		if sat != nil && !sat.candidate {
+			return *sat
+		}
+	}
+	// B
+	if len(p.cases) > 0 {
+		r := runCases(p, opt, log)
+		if r.res == "unsat" {
+			return r
+		}
+		if r.res == "sat" {
+			if !r.candidate {
+				return r
+			}
+			if sat == nil {
+				sat = &r
+			}
+		}
+	}
+	// D
+	if sat == nil || len(p.cases) == 0 {
+		r, tried := raceSolvers(p.ground, quickMs(opt), opt.timeoutMs)
+		*log = append(*log, tried...)
+		if r.res == "unsat" {
+			return stageRes{res: "unsat", solver: r.solver + suffix}
+		}
+		if r.res == "sat" {
+			if !p.instantiated {
+				return stageRes{res: "sat", solver: r.solver, model: p.ground}
+			}
+			if sat == nil {
+				sat = &stageRes{res: "sat", solver: r.solver, candidate: true, model: p.ground}
+			}
+		}
+	}
+	// E
+	if p.instantiated && p.full != nil && top {
+		tmo := opt.timeoutMs
+		if sat != nil && tmo > 5000 {
+			tmo = 5000 // a candidate model exists: give the quantified query a short chance to refute it
+		}
+		r, tried := raceSolvers(p.full, quickMs(opt), tmo)
+		for i := range tried {
+			tried[i].solver += " (quantified)"
+		}
+		*log = append(*log, tried...)
+		if r.res == "unsat" {
+			return stageRes{res: "unsat", solver: r.solver + " (quantified)"}
+		}
+	}
+	if sat != nil {
+		return *sat
+	}
+	return stageRes{res: "unknown"}
 }
 
 func firstLines(s string, n int) string {
@@ -436,4 +539,25 @@ func dischargeAll(res *FnResult, opt solveOpts, sem chan struct{}) {
 	}
 	wg.Wait()
 	res.SolveTime = time.Since(start).Seconds()
+}
+
+// provableNow: during translation, is cond valid under the current path condition and assumptions? (quick, z3-new only)
+func (tr *Tr) provableNow(cond *Term) bool {
+	if cond.IsTrue() {
+		return true
+	}
+	if cond.IsFalse() {
+		return false
+	}
+	fr := tr.fr()
+	reach := tr.f.True()
+	if fr.cur != nil {
+		reach = fr.reach[fr.cur]
+	}
+	o := &Obligation{Reach: reach, Cond: cond, NAssume: len(tr.assumes)}
+	asserts := tr.sliceAssumptions(o, nil)
+	g, _, _ := tr.f.groundQuery(asserts)
+	sc := tr.f.Script(g, nil)
+	r := runSolver(context.Background(), solvers[0], sc.Text, 1500, sc.Quant, false)
+	return r.res == "unsat"
 }
